@@ -50,7 +50,14 @@
 //!
 //! Sensitivity probes (mkpatch + mutrun, `./check C21 quick`):
 //!  1. disk_manager.rs: no `fetch_sub` when a write is rejected by the quota   -> VIOLATION (9 cases)
-//!  2. spill/mod.rs `gc_array_children`: `.offset(0)` instead of `.offset(data.offset())` -> see PROBE2
+//!  2. spill/mod.rs `SpillReaderStream`: the leftover bytes of a chunk are dropped after a batch is yielded
+//!     -> VIOLATION ("0 non-empty batches read back, 1 were written", 8 cases)
+//!  3. spill/mod.rs `gc_array_children`: rebuilt parent loses its validity (`.nulls(None)`)
+//!     -> VIOLATION (List(Utf8View): a NULL list read back as an empty list) — shows that the GC of views
+//!     nested in containers is reached (needs > 10 KB of view data: `bigpad` / `rep`)
+//!  (an `.offset(0)` mutant in `gc_array_children` stayed green and is equivalent: `to_data()` of list /
+//!  struct / dictionary arrays always has offset 0 in arrow 59)
+//!  The probe patches are kept in harness/crates/vf-plow/probes/.
 use crate::keys::*;
 use arrow::array::{Array, ArrayRef, RecordBatch, RecordBatchOptions};
 use arrow::datatypes::{Field, Schema, SchemaRef};
